@@ -257,6 +257,12 @@ def run_impl(c):
                 constants.always_return_list = always
                 try:
                     o = pv(f.attributes[k] if always else f[k])
+                    # every way of reading shows the same view: items(), values(), get()
+                    if k in f.attributes._d:
+                        ks = list(f.attributes.keys())
+                        seen = [dict(f.attributes.items())[k], list(f.attributes.values())[ks.index(k)], f.attributes.get(k)]
+                        if any(pv(x) != o for x in seen):
+                            o = None
                     r.append(["ok", o] if o is not None else ["err", "Other"])
                 except Exception as ex:
                     r.append(["err", L.err_class(ex)])
@@ -293,6 +299,15 @@ def run_impl(c):
                     v.append("edited in place")
             first["added key"] = ["x"]
             b = helpers._unjsonify(text, isattributes=True)
+            # a Feature built from the stored text (as a database hands it out), edited in place, serialises what it now holds
+            from gffutils.feature import Feature as _F
+            fdb = _F(attributes=text)
+            for v in fdb.attributes._d.values():
+                if isinstance(v, list):
+                    v.append("edited in place")
+            again = helpers._unjsonify(helpers._jsonify(fdb.attributes), isattributes=True)
+            if dict(again._d) != dict(fdb.attributes._d):
+                return {"text": text if isinstance(text, str) else "<not a str>", "back": ["err", "Other"]}
             ok = isinstance(text, str) and all(isinstance(k, str) and isinstance(v, list) and all(isinstance(x, str) for x in v)
                                                for k, v in b._d.items())
             return {"text": text if isinstance(text, str) else "<not a str>",
